@@ -320,11 +320,12 @@ func (s *Sim) Run(finished func() bool, progress func() int64, horizon time.Dura
 			continue
 		}
 		n := len(ready)
-		extra := 0
-		if s.stalling {
-			extra = 1
+		c := 0
+		if s.stalling && s.tape.Chance(core.Sched, 1, 10) {
+			c = n // stall
+		} else {
+			c = s.tape.Draw(core.Sched, n)
 		}
-		c := s.tape.Draw(core.Sched, n+extra)
 		if c >= n {
 			// stalled system / clock jump: time passes although tasks are runnable
 			q := stallQuanta[s.tape.Draw(core.Sched, len(stallQuanta))]
